@@ -25,6 +25,7 @@ var observerPrefixes = []string{
 	"(encoding/binary.littleEndian).Uint", "(encoding/binary.bigEndian).Uint", "encoding/binary.Size",
 	"(*github.com/pilosa/pilosa/roaring.Container).String",
 	"(hash.Hash32).", "(hash.Hash64).", "(hash.Hash).", "(io.Writer).Write", "(fmt.Stringer).String",
+	"io/ioutil.ReadAll", "io.ReadAll", // consume a reader (state outside the modelled heap), return a fresh slice
 }
 
 func isObserver(name string) bool {
